@@ -1,4 +1,5 @@
 import ZChain.Proofs.RoundBlocks
+import ZChain.Proofs.NodePools
 /-!
 # C35 — Generator ranking and per-round notarized blocks are consistent
 
@@ -72,6 +73,40 @@ theorem setRandomSeed_once (r : Ranks) (s1 s2 : Int) (p1 p2 : List Int) (h1 : r.
     (setRandomSeed r s1 p1).perm = some p1 ∧
     (setRandomSeedNB (setRandomSeed r s1 p1) s2 p2).perm = some p2 := by
   simp [setRandomSeed, setRandomSeedNB, h1, h2]
+
+/-! ## miners as shared node objects (`SetIndex` lives on the `*Node` object) -/
+
+open ZChain.NodePools in
+/-- right after an `AddNode` to pool `p` (distinct, existing objects), every node object of `p` carries its position in
+`p` as `SetIndex` — so `ranks_permutation` applies to the pool as it is then. -/
+theorem addNodeW_positions (w : World) (p o : Nat)
+    (hnd : (poolNodes (addNodeW w p o) p).Nodup)
+    (hk : ∀ x ∈ poolNodes (addNodeW w p o) p, (objGet w.objs x).isSome) :
+    (poolNodes (addNodeW w p o) p).map (fun x => (getObj (addNodeW w p o) x).setIndex)
+      = List.range (poolNodes (addNodeW w p o) p).length := by
+  have hobjs : (addNodeW w p o).objs = assign (poolNodes (addNodeW w p o) p) 0 w.objs := by
+    unfold addNodeW poolNodes
+    simp only [poolGet_poolSet, if_true]
+  have := assign_positions (poolNodes (addNodeW w p o) p) 0 w.objs hnd hk
+  unfold getObj
+  rw [hobjs]
+  simpa using this
+
+/-- **FULL statement "the ranking is a permutation" is false when a miner's node object is shared with another pool**
+(finding `C35:stale-setindex-of-shared-node-object`): miners `a < b` as objects 1, 2 in pool 0; object 2 is then also
+added to pool 2, which renumbers it to 0. Both miners now read rank `perm[0]`. Proved instead (`_partial`):
+`ranks_permutation` for objects that carry their positions, which `addNodeW_positions` gives right after any `AddNode`
+to the miner pool (in particular for node objects that belong to one pool only, as `minersc` builds them). -/
+theorem ranks_shared_object_fails :
+    let w0 := ZChain.NodePools.newObj (ZChain.NodePools.newObj ZChain.NodePools.emptyWorld 1 ⟨5, [5]⟩) 2 ⟨9, [9]⟩
+    let w := [(0, 2), (0, 1), (2, 2)].foldl (fun w po => ZChain.NodePools.addNodeW w po.1 po.2) w0
+    let r : Ranks := { perm := some [0, 1], seed := 7 }
+    ZChain.NodePools.poolNodes w 0 = [1, 2] ∧
+    (ZChain.NodePools.poolNodes w 0).map (fun o => getMinerRank r (ZChain.NodePools.getObj w o).setIndex) = [0, 0] ∧
+    -- touching the miner pool again (any AddNode) puts the indices right
+    (let w' := ZChain.NodePools.addNodeW w 0 1
+     (ZChain.NodePools.poolNodes w' 0).map (fun o => getMinerRank r (ZChain.NodePools.getObj w' o).setIndex) = [0, 1]) := by
+  decide
 
 /-! ## notarized blocks -/
 
